@@ -28,10 +28,10 @@ type simWallet struct {
 	log  *SignerLog
 }
 
-func (w *simWallet) ID() uuid.UUID   { return uuid.UUID{0xd1, byte(w.w + 1)} }
-func (w *simWallet) Type() string    { return "dirk" }
-func (w *simWallet) Name() string    { return w.name }
-func (w *simWallet) Version() uint   { return 1 }
+func (w *simWallet) ID() uuid.UUID { return uuid.UUID{0xd1, byte(w.w + 1)} }
+func (w *simWallet) Type() string  { return "dirk" }
+func (w *simWallet) Name() string  { return w.name }
+func (w *simWallet) Version() uint { return 1 }
 
 func (w *simWallet) Accounts(ctx context.Context) <-chan e2wtypes.Account {
 	h := w.h
@@ -79,9 +79,9 @@ func (w *simWallet) Accounts(ctx context.Context) <-chan e2wtypes.Account {
 
 type dirkImpl struct{}
 
-func (dirkImpl) setup(*history) error { return nil }
+func (dirkImpl) setup(*history) error   { return nil }
 func (dirkImpl) beforeOp(*history, int) {}
-func (dirkImpl) cleanup()             {}
+func (dirkImpl) cleanup()               {}
 
 func (dirkImpl) build(ctx context.Context, h *history, vm validatorsmanager.Service, ct chaintime.Service, prov *ChainProviders) (manager, error) {
 	log := &SignerLog{}
@@ -100,18 +100,6 @@ func (dirkImpl) build(ctx context.Context, h *history, vm validatorsmanager.Serv
 		dirk.WithFarFutureEpochProvider(prov),
 		dirk.WithCurrentEpochProvider(ct),
 	)
-}
-
-func (dirkImpl) ident(h *history, a e2wtypes.Account) (int, string, string) {
-	sa := StubOf(a)
-	if sa == nil {
-		return -1, a.Name(), ""
-	}
-	wn := ""
-	if w := sa.Wallet(); w != nil {
-		wn = w.Name()
-	}
-	return sa.KeyIndex, a.Name(), wn
 }
 
 func init() {
